@@ -1,0 +1,36 @@
+//go:build verif
+
+// Package quic (verif build): a stub that keeps the erpc root package linkable
+// without quic-go, whose qtls dependency panics at init on current Go versions.
+package quic
+
+import (
+	"context"
+	"crypto/tls"
+	"errors"
+	"net"
+)
+
+var errStub = errors.New("quic: not available in verif builds")
+
+// Conn is a placeholder type; no value of it is ever created.
+type Conn struct{ net.Conn }
+
+// Listener is a placeholder type; no value of it is ever created.
+type Listener struct{ net.Listener }
+
+// Close closes the listener.
+func (l *Listener) Close() error { return errStub }
+
+// DialAddrContext always fails in verif builds.
+func DialAddrContext(ctx context.Context, network string, laddr *net.UDPAddr, raddr string, tlsConf *tls.Config, config interface{}) (net.Conn, error) {
+	return nil, errStub
+}
+
+// InheritedListen always fails in verif builds.
+func InheritedListen(network, laddr string, tlsConf *tls.Config, config interface{}) (net.Listener, error) {
+	return nil, errStub
+}
+
+// SetInherited does nothing in verif builds.
+func SetInherited() error { return nil }
